@@ -85,9 +85,18 @@ class DeflateDecompressor(SimpleGzipDecompressor):
     def __init__(self):
         super().__init__()
         self.decompressobj = None
+        self._header = b''
 
     def decompress(self, value):
         if not self.decompressobj:
+            # The 2 byte zlib header is needed to tell zlib from raw deflate
+            self._header += value
+
+            if len(self._header) < 2:
+                return b''
+
+            value = self._header
+
             try:
                 self.decompressobj = zlib.decompressobj()
                 return self.decompressobj.decompress(value)
@@ -100,6 +109,8 @@ class DeflateDecompressor(SimpleGzipDecompressor):
     def flush(self):
         if self.decompressobj:
             return super().flush()
+        elif self._header:
+            raise zlib.error('Incomplete or truncated compressed stream')
         else:
             return b''
 
